@@ -153,6 +153,12 @@ def gen_strs(job):
             if c.lower() != c.upper():
                 yield "case flip of one letter", b[:i] + c.swapcase() + b[i + 1:]
         yield "whole-string case flip", b.swapcase()
+        sep = b.rfind(b"1")
+        hrp, data = b[:sep], b[sep:]
+        yield "HRP case flipped, data part unchanged", hrp.swapcase() + data
+        yield "data part case flipped, HRP unchanged", hrp + data.swapcase()
+        yield "checksum case flipped", b[:-6] + b[-6:].swapcase()
+        yield "program characters case flipped", b[:sep + 2] + b[sep + 2:-6].swapcase() + b[-6:]
     elif part == "subst2":
         b = bs[job["idx"]]
         sh, nsh = job["shard"]
